@@ -22,5 +22,13 @@ INVARIANT OneIdPerPrefix
 INVARIANT IdsBounded
 INVARIANT FlagInv
 INVARIANT Accounting
+INVARIANT WePagesInv
+INVARIANT NetworkInv
+INVARIANT WeLinksInv
+INVARIANT HierarchyInv
+INVARIANT PaginationInv
+INVARIANT PagLinksInv
+INVARIANT TopInv
 PROPERTY Monotone
+VIEW View
 CHECK_DEADLOCK FALSE
